@@ -254,7 +254,7 @@ CmdAlts == {<< >>} \cup {<< CmdSk(z, n) >> : z \in {"x", "z"}, n \in C8}
 QueuedCross ==
   LET d == DefSk("QueuedState") IN
   {[d EXCEPT ![4] = s, ![5] = w] : s \in CmdAlts, w \in CmdAlts}
-  \cup {[MinSk("QueuedState") EXCEPT ![4] = s, ![5] = w] : s \in CmdAlts, w \in CmdAlts}
+  \cup (IF Wide THEN {[MinSk("QueuedState") EXCEPT ![4] = s, ![5] = w] : s \in CmdAlts, w \in CmdAlts} ELSE {})
 
 ShapesOf(ty) ==
   SkAlts(ty) \cup (IF ty = "QueuedState" THEN QueuedCross ELSE {})
@@ -450,32 +450,39 @@ ASSUME 255 * 400 < 1048576
 VARIABLE vec
 vars == << vec >>
 
-Init == \/ \E ty \in Types : \E sk \in ShapesOf(ty) : vec = [t |-> "shape", ty |-> ty, sk |-> sk]
-        \/ \E h \in Hostile : "QueuedState" \in Types /\ vec = [t |-> "hostile", ty |-> "QueuedState", sk |-> h]
+Init == \/ \E h \in Hostile : "QueuedState" \in Types /\ vec = [t |-> "hostile", ty |-> "QueuedState", sk |-> h]
+        \/ \E ty \in Types : \E sk \in ShapesOf(ty) : vec = [t |-> "shape", ty |-> ty, sk |-> sk]
 Next == UNCHANGED vec
 Spec == Init /\ [][Next]_vars
 
 Msg == Annot(vec.ty, vec.sk, vec.ty)
+Same(p, m) == p = [st |-> "ok", val |-> m]
+
+(* what the transcribed decoder makes of the optional wake command (classification of replay mismatches) *)
+Outcome(ty, p, m) ==
+  IF Same(p, m) THEN "same"
+  ELSE IF p.st = "err" THEN "error"
+  ELSE IF ty # "QueuedState" THEN p.st
+  ELSE IF p.st = "unk" THEN "wake-lost-or-garbled"
+  ELSE IF p.val[5] = << >> THEN "wake-lost" ELSE "wake-garbled"
+
+VecRecord(L, p, m) ==
+  PrintT("VEC " \o ToJson([ty |-> vec.ty, sk |-> vec.sk, len |-> Bytes(L), runs |-> L,
+                           parse |-> Outcome(vec.ty, p, m)]))
+HostileRecord ==
+  PrintT("HOSTILE " \o ToJson([h |-> vec.sk, prealloc |-> PreAlloc(vec.sk), bound |-> AllocBound(vec.sk.nbytes)]))
 
 \* C05, first sentence, on the model
-RoundTrip == vec.t = "shape" => Parse(vec.ty, Lay(vec.ty, Msg)) = [st |-> "ok", val |-> Msg]
+RoundTrip == vec.t = "shape" => Same(Parse(vec.ty, Lay(vec.ty, Msg)), Msg)
 \* C05, last sentence, on the model
 AllocProportional == vec.t = "hostile" => PreAlloc(vec.sk) <= AllocBound(vec.sk.nbytes)
 
-(* what the parser with exactly one deviation does to this shape (classification of replay mismatches) *)
-WakeOutcome(p, m) ==
-  IF p.st = "unk" THEN "lost-or-garbled"
-  ELSE IF p.st = "err" THEN "error"
-  ELSE IF p.val = m THEN "same"
-  ELSE IF p.val[5] = << >> THEN "lost" ELSE "garbled"
-
+\* emission only (always TRUE): used with Dev = {d} to obtain the deviating decoder's outcome for every shape
 EmitVec ==
-  Emit =>
-    IF vec.t = "shape"
-      THEN LET m == Msg  L == Lay(vec.ty, m)  p == Parse(vec.ty, L) IN
-           PrintT("VEC " \o ToJson([ty |-> vec.ty, sk |-> vec.sk, len |-> Bytes(L), runs |-> L,
-                                    parse |-> IF p = [st |-> "ok", val |-> m] THEN "same"
-                                              ELSE IF vec.ty = "QueuedState" THEN WakeOutcome(p, m) ELSE p.st]))
-      ELSE PrintT("HOSTILE " \o ToJson([h |-> vec.sk, prealloc |-> PreAlloc(vec.sk),
-                                        bound |-> AllocBound(vec.sk.nbytes)]))
+  IF vec.t = "shape" THEN LET m == Msg  L == Lay(vec.ty, m) IN VecRecord(L, Parse(vec.ty, L), m) ELSE HostileRecord
+\* check and emission with one evaluation of layout and parse
+RoundTripEmit ==
+  vec.t = "shape" => LET m == Msg  L == Lay(vec.ty, m)  p == Parse(vec.ty, L) IN
+                     (Emit => VecRecord(L, p, m)) /\ Same(p, m)
+AllocEmit == vec.t = "hostile" => (Emit => HostileRecord) /\ PreAlloc(vec.sk) <= AllocBound(vec.sk.nbytes)
 =============================================================================
